@@ -446,7 +446,10 @@ def check_deadline_shape(ck: Checker, rid: str, f: FuncInfo, *, queue: str, wait
 
             g_ = ck.repo.cls(QUEUES, 'SingleLane').method('get')
             rejects = any(isinstance(r_, ast.Raise) and isinstance(i_, ast.If) and 'timeout' in norm_text(i_.test) and any(isinstance(o_, (ast.Lt, ast.LtE)) for c_ in ast.walk(i_.test) if isinstance(c_, ast.Compare) for o_ in c_.ops) for i_ in ast.walk(g_.node) if isinstance(i_, ast.If) for r_ in i_.body)
-        if rejects and not clamped:
+        floor_ = [a_.value for a_ in t.args if isinstance(a_, ast.Constant) and isinstance(a_.value, (int, float)) and a_.value > 0] if isinstance(t, ast.Call) and dotted(t.func) == 'max' else []
+        if floor_:
+            probs.append(f'the remaining time handed to the get at L{n.lineno} is floored at {floor_[0]} (`{norm_text(t)}`): once the wait time is over the batch is held {floor_[0]} s longer, and an element arriving in that time joins a batch whose wait had ended')
+        elif rejects and not clamped:
             probs.append(f'the remaining time `{norm_text(t)}` handed to the get at L{n.lineno} can be negative (the deadline has passed) and the queue rejects a negative timeout with ValueError: the thread that assembles the batch dies, the partial batch never reaches call(), its requests are never answered')
     # Empty leaves the loop
     for n, c in gets_in:
@@ -458,6 +461,13 @@ def check_deadline_shape(ck: Checker, rid: str, f: FuncInfo, *, queue: str, wait
                     p = path_avoiding(cfg, [dst.id], {loop.id}, avoid={x.id for x, _ in firsts} | {k.id for k in cfg.nodes if isinstance(k.ast, ast.Expr) and isinstance(k.ast.value, ast.Yield)})
                     if p is not None:
                         probs.append('after queue.Empty the loop goes on waiting instead of releasing the partial batch')
+                    # the handler that closes the batch catches the time-out and nothing else: a get that took an item
+                    # off the queue and then failed (an item that cannot be un-pickled, a decoding queue) is not "nothing
+                    # arrived" -- taken for a time-out the item is silently missing from the stream
+                    ht = dst.ast.type
+                    names_ = [(dotted(x_) or '?').split('.')[-1] for x_ in (ht.elts if isinstance(ht, ast.Tuple) else ([ht] if ht is not None else []))]
+                    if ht is None or any(nm_ not in ('Empty', 'QueueEmpty', 'TimeoutError') for nm_ in names_):
+                        probs.append(f'L{dst.lineno}: the handler that closes the batch on the timed get catches `{norm_text(ht) if ht is not None else "everything"}`, not only queue.Empty: a failure of the get itself (an element that cannot be un-pickled) is taken for a time-out and the element is silently dropped')
                 else:
                     probs.append('queue.Empty from the timed get is not handled')
     # a batch that is not full is closed only on evidence from the queue: every way out of the fill loop other than the
